@@ -253,38 +253,10 @@ Section Closed.
 End Closed.
 
 (* ------------------------------------------------------------------ the domain, in closed form over the history *)
-(* no collection of the history reports an attribute set of instrument i more than once *)
-Definition no_repeated_report (c : cfg) (ops : list op) (i : nat) : Prop := p_multi (final_sstate c ops) i = false.
 (* no negative total was reported for a monotonic counter *)
 Definition no_negative_total (c : cfg) (ops : list op) (i : nat) : Prop := p_skip (final_sstate c ops) i = false.
 (* the clock strictly increases in call order: it is the real one, or every scripted step is positive *)
 Definition clock_increasing (c : cfg) (ops : list op) : Prop := p_clock_ok (final_sstate c ops) = true.
-
-Lemma multi_groups : forall c ops ss i,
-  p_multi (fold_left (sstep c) ops ss) i = p_multi ss i || existsb (fun g => has_dup (map fst g)) (groups_from c ss ops i).
-Proof.
-  intros c. induction ops as [|o ops IH]; intros ss i; cbn [fold_left groups_from existsb]; [now rewrite orb_false_r|].
-  rewrite IH, existsb_app, orb_assoc. f_equal.
-  destruct o as [j f s|j f s|j|s a' v|s a'|j a' v|d|r0]; cbn [sstep head_group existsb].
-  1,2: destruct (susable c ss j true); now rewrite orb_false_r.
-  1,2,3: now rewrite orb_false_r.
-  - destruct (susable c ss j false) eqn:U; cbn [andb existsb]; [|now rewrite orb_false_r].
-    cbn [sreport p_multi]. unfold upd. rewrite Nat.eqb_sym. destruct (Nat.eqb j i) eqn:E; cbn [existsb]; [|now rewrite orb_false_r].
-    apply Nat.eqb_eq in E. now subst.
-  - destruct (c_scripted c); now rewrite orb_false_r.
-  - cbn [sgiven sobserve p_multi]. now rewrite orb_false_r.
-Qed.
-
-Theorem no_repeated_report_iff : forall c ops i,
-  no_repeated_report c ops i <-> forall g, In g (groups c ops i) -> has_dup (map fst g) = false.
-Proof.
-  intros c ops i. unfold no_repeated_report, final_sstate. rewrite multi_groups. cbn [sinit p_multi orb]. fold (groups c ops i).
-  split.
-  - intros H g Hg. destruct (has_dup (map fst g)) eqn:E; [|reflexivity].
-    assert (existsb (fun g0 => has_dup (map fst g0)) (groups c ops i) = true) by (apply existsb_exists; now exists g). congruence.
-  - intros H. destruct (existsb (fun g => has_dup (map fst g)) (groups c ops i)) eqn:E; [|reflexivity].
-    apply existsb_exists in E as (g & Hg & Hd). rewrite (H g Hg) in Hd. discriminate.
-Qed.
 
 Lemma clock_ok_step : forall c ss o,
   p_clock_ok (sstep c ss o) = p_clock_ok ss && match o with OStep d => negb (c_scripted c) || (0 <? d) | _ => true end.
@@ -321,7 +293,7 @@ Section Values.
   Hypothesis Hi : (i < ninstr c)%nat.
 
   Lemma dom_of_final : forall ops r, p_skip (final_sstate c (ops ++ [OCollect r])) i = false ->
-    (if is_last k then p_clock_ok (final_sstate c (ops ++ [OCollect r])) = true else p_multi (final_sstate c (ops ++ [OCollect r])) i = false) ->
+    (is_last k = true -> p_clock_ok (final_sstate c (ops ++ [OCollect r])) = true) ->
     dom c (sobserve c (final_sstate c ops)) i.
   Proof. intros ops r H1 H2. rewrite final_snoc in H1, H2. split; [exact H1|exact H2]. Qed.
 
@@ -329,15 +301,15 @@ Section Values.
      recently reported for it - the reports of this very collection included *)
   Lemma cumulative_reader_gets_reported_total_lemma : forall ops r,
     Forall (op_ok c) ops -> (r < nreaders c)%nat -> cumulative c r = true -> is_last k = false ->
-    no_repeated_report c (ops ++ [OCollect r]) i -> no_negative_total c (ops ++ [OCollect r]) i ->
+    no_negative_total c (ops ++ [OCollect r]) i ->
     exists o, snd (run c (ops ++ [OCollect r])) = snd (run c ops) ++ [o] /\
               forall a, In a attrs ->
                 given c i (nth i (co_tabs o) None) a =
                 option_map (fun v => PSum v (is_mono k)) (last_report (events c (ops ++ [OCollect r]) i) a).
   Proof.
-    intros ops r Hok Hr Hcu Hk Hm Hs. destruct (collect_points c ops r Hok Hr) as (o & Ho & Hpts).
+    intros ops r Hok Hr Hcu Hk Hs. destruct (collect_points c ops r Hok Hr) as (o & Ho & Hpts).
     exists o. split; [exact Ho|]. intros a Hin.
-    rewrite (Hpts i Hi) by (try exact Hin; apply (dom_of_final ops r Hs); fold k; rewrite Hk; exact Hm).
+    rewrite (Hpts i Hi) by (try exact Hin; apply (dom_of_final ops r Hs); fold k; rewrite Hk; discriminate).
     rewrite expected_cumulative by exact Hcu. fold k. unfold mkpoint. now rewrite Hk.
   Qed.
 
@@ -346,7 +318,7 @@ Section Values.
   Lemma delta_reader_gets_difference_from_own_last_lemma : forall pre post r,
     Forall (op_ok c) (pre ++ OCollect r :: post) -> (r < nreaders c)%nat -> cumulative c r = false -> is_last k = false ->
     Forall (fun o => o <> OCollect r) post ->
-    no_repeated_report c ((pre ++ OCollect r :: post) ++ [OCollect r]) i -> no_negative_total c ((pre ++ OCollect r :: post) ++ [OCollect r]) i ->
+    no_negative_total c ((pre ++ OCollect r :: post) ++ [OCollect r]) i ->
     exists o, snd (run c ((pre ++ OCollect r :: post) ++ [OCollect r])) = snd (run c (pre ++ OCollect r :: post)) ++ [o] /\
               forall a, In a attrs ->
                 given c i (nth i (co_tabs o) None) a =
@@ -355,24 +327,24 @@ Section Values.
                 | None => None
                 end.
   Proof.
-    intros pre post r Hok Hr Hcu Hk Hno Hm Hs. destruct (collect_points c _ r Hok Hr) as (o & Ho & Hpts).
+    intros pre post r Hok Hr Hcu Hk Hno Hs. destruct (collect_points c _ r Hok Hr) as (o & Ho & Hpts).
     exists o. split; [exact Ho|]. intros a Hin.
-    rewrite (Hpts i Hi) by (try exact Hin; apply (dom_of_final _ r Hs); fold k; rewrite Hk; exact Hm).
+    rewrite (Hpts i Hi) by (try exact Hin; apply (dom_of_final _ r Hs); fold k; rewrite Hk; discriminate).
     rewrite expected_delta by assumption. fold k. unfold mkpoint. now rewrite Hk.
   Qed.
 
   Lemma delta_reader_first_collection_lemma : forall ops r,
     Forall (op_ok c) ops -> (r < nreaders c)%nat -> cumulative c r = false -> is_last k = false ->
     Forall (fun o => o <> OCollect r) ops ->
-    no_repeated_report c (ops ++ [OCollect r]) i -> no_negative_total c (ops ++ [OCollect r]) i ->
+    no_negative_total c (ops ++ [OCollect r]) i ->
     exists o, snd (run c (ops ++ [OCollect r])) = snd (run c ops) ++ [o] /\
               forall a, In a attrs ->
                 given c i (nth i (co_tabs o) None) a =
                 option_map (fun v => PSum v (is_mono k)) (last_report (events c (ops ++ [OCollect r]) i) a).
   Proof.
-    intros ops r Hok Hr Hcu Hk Hno Hm Hs. destruct (collect_points c ops r Hok Hr) as (o & Ho & Hpts).
+    intros ops r Hok Hr Hcu Hk Hno Hs. destruct (collect_points c ops r Hok Hr) as (o & Ho & Hpts).
     exists o. split; [exact Ho|]. intros a Hin.
-    rewrite (Hpts i Hi) by (try exact Hin; apply (dom_of_final ops r Hs); fold k; rewrite Hk; exact Hm).
+    rewrite (Hpts i Hi) by (try exact Hin; apply (dom_of_final ops r Hs); fold k; rewrite Hk; discriminate).
     rewrite expected_delta_first by assumption. fold k. unfold mkpoint. rewrite Hk.
     destruct (last_report (events c (ops ++ [OCollect r]) i) a); cbn [option_map]; [now rewrite Z.sub_0_r|reflexivity].
   Qed.
@@ -394,7 +366,7 @@ Section Values.
         fold k. assert (Hm : is_mono k = false) by (unfold is_mono, is_last in *; lia). now rewrite Hm. }
       apply Hgen. reflexivity. }
     exists o. split; [exact Ho|]. intros a Hin.
-    rewrite (Hpts i Hi) by (try exact Hin; apply (dom_of_final ops r Hskip); fold k; rewrite Hk; exact Hclk).
+    rewrite (Hpts i Hi) by (try exact Hin; apply (dom_of_final ops r Hskip); intros _; exact Hclk).
     rewrite expected_cumulative by exact Hcu. fold k. unfold mkpoint. now rewrite Hk.
   Qed.
 
@@ -414,7 +386,7 @@ Section Values.
         fold k. assert (Hm : is_mono k = false) by (unfold is_mono, is_last in *; lia). now rewrite Hm. }
       apply Hgen. reflexivity. }
     exists o. split; [exact Ho|]. intros a Hin.
-    rewrite (Hpts i Hi) by (try exact Hin; apply (dom_of_final _ r Hskip); fold k; rewrite Hk; exact Hclk).
+    rewrite (Hpts i Hi) by (try exact Hin; apply (dom_of_final _ r Hskip); intros _; exact Hclk).
     rewrite expected_delta by assumption. fold k. unfold mkpoint. rewrite Hk.
     now destruct (last_report (events_after c (pre ++ [OCollect r]) (post ++ [OCollect r]) i) a).
   Qed.
@@ -427,7 +399,7 @@ Example values_example :
   let pre := [OAdd 0 0 0; OAdd 0 1 1; OSet 0 0 10; OSet 1 2 4; OCollect 1] in
   let post := [OSet 0 0 25; OCollect 1; OUnset 1 2; OSet 0 0 20] in
   Forall (op_ok c) (pre ++ OCollect 0 :: post) /\ cumulative c 0 = false /\ Forall (fun o => o <> OCollect 0%nat) post /\
-  no_repeated_report c ((pre ++ OCollect 0 :: post) ++ [OCollect 0]) 0 /\ no_negative_total c ((pre ++ OCollect 0 :: post) ++ [OCollect 0]) 0 /\
+  no_negative_total c ((pre ++ OCollect 0 :: post) ++ [OCollect 0]) 0 /\
   clock_increasing c ((pre ++ OCollect 0 :: post) ++ [OCollect 0]) /\
   events_after c (pre ++ [OCollect 0]) (post ++ [OCollect 0]) 0 = [(0, 25); (2, 4); (0, 20)] /\
   total_at c (pre ++ [OCollect 0]) 0 0 = 10.
